@@ -5,6 +5,8 @@ CONSTANTS MaxSize = 7
  MaxAtoms = 3
  AtomKinds = {"A", "E", "L", "F", "P", "N", "B", "M"}
  LongKinds = {"A", "L", "F"}
+ ShortKinds = {"SP", "SN", "SE", "SA"}
+ ShortLen = 2
  DeclAtoms = 2
  Variants <- VariantsQuick
  ExactOccursCheck = TRUE
